@@ -33,7 +33,7 @@ class importer_run_summary:
         return self._document
 
 
-@contract(IMP + 'import_string', props=['C02', 'C20'])
+@contract(IMP + 'import_string', props=['C02', 'C12', 'C20'])
 class import_string:
     """the text is split into lines and read with the literal tab reader; the result is what run() returns for those rows"""
     uses = ('importer_run_summary',)
@@ -179,12 +179,21 @@ def stage_list(imp):
     return None
 
 
+def operator_in_force_below(parent):
+    if type(parent.token).__name__ == 'SpineOperationToken':
+        return parent
+    return parent.last_spine_operator_node
+
+
 @contract(IMP + '_compute_spine_operator_token', props=['C02', 'C06', 'C08'])
 class compute_spine_operator_token:
     """A spine-operator cell: a fresh node below the cell above (same header); '*^' / '*+' give two paths, '*-' none, '*v' one path
     unless the cell to the left is a '*v' of the same spine (then the join continues); the cancelled operator is recorded."""
     def inputs(g):
-        imp = mk_full_importer(g, g.choice('pending_operator', [False, True]))
+        # the cells of the row above: ordinary cells without / with an operator still open on their path, or operator cells themselves
+        # (two operator records on consecutive lines)
+        above = g.choice('row above', ['cells', 'cells below an open operator', 'operators'])
+        imp = mk_full_importer(g, above == 'cells below an open operator', parents='operators' if above == 'operators' else 'cells')
         col = g.int('column', 0)
         row = g.seq('row', lambda e: e.str_sym('cell', ['*v', '*v', '*', '*^', '*-']))
         g.assume(col < len(row))
@@ -204,6 +213,7 @@ class compute_spine_operator_token:
         if type(parent.token).__name__ == 'SpineOperationToken':
             out.append(parent.token)
         return out
+
 
     def post_paths(self, column_index, column_content, row, next_before):
         nxt = self._next_stage_parents
@@ -233,10 +243,16 @@ class compute_spine_operator_token:
         # every join cell and every terminator closes the operator its path descends from (C08 reads cancelled_at_stage to decide
         # which operator rows an excerpt has to replay)
         parent = self._prev_stage_parents[column_index]
-        pending = parent.last_spine_operator_node
+        pending = operator_in_force_below(parent)
         if pending is None or (column_content != '*v' and column_content != '*-'):
             return True
         return pending.token.cancelled_at_stage == self._tree_stage
+
+    def post_operator_in_force(self, column_index):
+        # the new cell descends from the operator in force below the cell above: that cell itself when it is an operator (two operator
+        # records on consecutive lines), else the operator its path already descends from
+        parent = self._prev_stage_parents[column_index]
+        return parent.children[-1].last_spine_operator_node is operator_in_force_below(parent)
 
     def raises(self, column_index, column_content):
         return {'Exception': disj(column_index >= len(self._prev_stage_parents), column_content == '*x')}
@@ -252,7 +268,7 @@ def temp_score_file():
     return p
 
 
-@contract(IMP + 'import_file', props=['C02', 'C20'])
+@contract(IMP + 'import_file', props=['C02', 'C12', 'C20'])
 class import_file:
     """the file is opened for reading (utf-8, universal newlines off) and read with the same literal tab reader as import_string"""
     uses = ('importer_run_summary',)
